@@ -433,39 +433,39 @@ func analyseCtors(p *pkg, facts *Facts) {
 			return true
 		})
 	}
-	// Discard itself: every `case *T: xPool.Put(p)` must put a pooled type into the pool its getter reads
+	// every Put into one of the pools, anywhere in lib/value: allowed only inside Discard, as
+	// `case *T: xPool.Put(p)` with T pooled and xPool the pool that getT() reads
+	pools := map[string]bool{}
+	for _, pv := range poolOf {
+		pools[pv] = true
+	}
 	for _, f := range p.files {
-		for _, d := range f.Decls {
-			fd, ok := d.(*ast.FuncDecl)
-			if !ok || fd.Recv != nil || fd.Name.Name != "Discard" || fd.Body == nil {
-				continue
+		ast.Inspect(f, func(n ast.Node) bool {
+			c, ok := n.(*ast.CallExpr)
+			if !ok {
+				return true
 			}
-			ast.Inspect(fd.Body, func(n ast.Node) bool {
-				c, ok := n.(*ast.CallExpr)
-				if !ok {
-					return true
-				}
-				se, ok := c.Fun.(*ast.SelectorExpr)
-				if !ok || se.Sel.Name != "Put" {
-					return true
-				}
-				cw := CWrite{File: p.relFile(c.Pos()), Line: p.line(c.Pos()), Func: "Discard", Lhs: types.ExprString(c)}
-				var cc *ast.CaseClause
-				for cur := p.parents[c]; cur != nil && cc == nil; cur = p.parents[cur] {
-					cc, _ = cur.(*ast.CaseClause)
-				}
-				if cc != nil && len(cc.List) == 1 {
-					if st, ok := cc.List[0].(*ast.StarExpr); ok {
-						if id, ok := st.X.(*ast.Ident); ok && pooledTypes[id.Name] && types.ExprString(se.X) == poolOf["get"+id.Name] {
-							cw.Fresh = true
-							cw.Lhs = "case *" + id.Name + ": " + cw.Lhs
-						}
+			se, ok := c.Fun.(*ast.SelectorExpr)
+			if !ok || se.Sel.Name != "Put" || !pools[types.ExprString(se.X)] {
+				return true
+			}
+			fd, _ := p.enclosing(c)
+			cw := CWrite{File: p.relFile(c.Pos()), Line: p.line(c.Pos()), Func: funcName(fd), Lhs: types.ExprString(c)}
+			var cc *ast.CaseClause
+			for cur := p.parents[c]; cur != nil && cc == nil; cur = p.parents[cur] {
+				cc, _ = cur.(*ast.CaseClause)
+			}
+			if fd != nil && fd.Recv == nil && fd.Name.Name == "Discard" && cc != nil && len(cc.List) == 1 {
+				if st, ok := cc.List[0].(*ast.StarExpr); ok {
+					if id, ok := st.X.(*ast.Ident); ok && pooledTypes[id.Name] && types.ExprString(se.X) == poolOf["get"+id.Name] {
+						cw.Fresh = true
+						cw.Lhs = "case *" + id.Name + ": " + cw.Lhs
 					}
 				}
-				facts.CWrites = append(facts.CWrites, cw)
-				return true
-			})
-		}
+			}
+			facts.CWrites = append(facts.CWrites, cw)
+			return true
+		})
 	}
 	sort.Slice(facts.CWrites, func(i, j int) bool {
 		a, b := facts.CWrites[i], facts.CWrites[j]
@@ -978,6 +978,33 @@ func (p *pkg) analyseSites(facts *Facts) {
 		})
 	}
 	sort.Slice(calls, func(i, j int) bool { return calls[i].call.Pos() < calls[j].call.Pos() })
+	// value.Discard mentioned otherwise than as the callee of a call (passed around as a function value)
+	for _, f := range p.files {
+		ast.Inspect(f, func(n ast.Node) bool {
+			id, ok := n.(*ast.Ident)
+			if !ok {
+				return true
+			}
+			o, ok := p.info.Uses[id].(*types.Func)
+			if !ok || !isValuePkg(o.Pkg()) || o.Name() != "Discard" || o.Type().(*types.Signature).Recv() != nil {
+				return true
+			}
+			var ref ast.Node = id
+			if se, ok := p.parents[id].(*ast.SelectorExpr); ok && se.Sel == id {
+				ref = se
+			}
+			if c, ok := p.parents[ref].(*ast.CallExpr); ok && c.Fun == ref {
+				return true
+			}
+			fd, _ := p.enclosing(id)
+			s := Site{File: p.relFile(id.Pos()), Line: p.line(id.Pos()), Func: funcName(fd), Shape: "other", Var: "<function value>",
+				Defs: []DefSrc{{Kind: "other", Line: p.line(id.Pos()), Why: "value.Discard is used as a function value: its arguments cannot be tracked"}}}
+			s.Identity = fmt.Sprintf("%s:%s:<function value>#%d", s.File, s.Func, s.Line)
+			s.Sig = siteSig(s)
+			facts.Sites = append(facts.Sites, s)
+			return true
+		})
+	}
 	count := map[string]int{}
 	for _, fc := range calls {
 		c := fc.call
